@@ -10,6 +10,7 @@ Import ListNotations.
 Definition induction_sound_closed := induction_sound substitute_sem.
 Definition try_from_sound_closed := try_from_sound substitute_sem.
 Definition from_specification_ok_closed := from_specification_ok substitute_sem.
+Definition accepted_definitions_conservative_closed := accepted_definitions_conservative substitute_sem.
 
 Definition enforce_instantiated (tau_star : program -> theory) (simp_classic : formula -> formula) :=
   enforce is_tight has_private_recursion tau_star completion simp_classic.
